@@ -29,6 +29,10 @@ const PLACES: &[&str] = &[
     "a{b: str-insert(\"\u{1}\", \"\\a\", 1)}",
     "a{--x: \"\u{1}\"}",
     "@font-face{font-family: \"\u{1}\"}",
+    // raw source text after an unquoted identifier (escapes of `;`, `{`, `}`, quotes ... in identifiers)
+    "a{b: x\u{1}}",
+    "a{b: c; d: x\u{1}; e: f}",
+    "@x k\u{1};",
 ];
 
 /// Is every declaration value made of CSS component values only? Outputs of inspect()-like
@@ -393,7 +397,20 @@ pub fn run(ctx: &Ctx) {
             let text = decode(i % per);
             let place = PLACES[(i / per) as usize];
             let src = place.replace('\u{1}', &text);
-            check_one(ctx, sub, &format!("wf:escape:{}:{}", place.replace('\u{1}', "<s>"), text.escape_default()), &src, Syn::Scss, l);
+            // in the raw-text places a `//` or `/*` starts a comment of the *source*; what it swallows is not
+            // a value
+            if !place.contains('"') && !place.contains('\'') && !place.starts_with("/*") && (text.contains("//") || text.contains("/*")) {
+                l.count("skipped_comment_in_raw_text", 1);
+                return;
+            }
+            // one root cause, one key family: an attribute value holding a literal backslash in front of
+            // other text is printed unquoted with the backslash bare, which reads back as an escape
+            let keybase = if place.contains("[t=") && text.contains("\\\\") && !text.ends_with("\\\\") {
+                "wf:escape:attr-value:literal-backslash-before-text".to_string()
+            } else {
+                format!("wf:escape:{}:{}", place.replace('\u{1}', "<s>"), text.escape_default())
+            };
+            check_one(ctx, sub, &keybase, &src, Syn::Scss, l);
         },
     );
     ctx.bound(sub, &format!("every string of <= {} pieces over a {}-piece escaping alphabet in {} string-bearing positions", maxlen, nc, np), true);
@@ -440,5 +457,79 @@ pub fn run(ctx: &Ctx) {
     );
     ctx.bound(sub, &format!("every sequence of 1..{} top-level statements over a 19-statement alphabet (imports, body-less at-rules, invisible rules, comments, rules) and every sequence of 1..{} children over a 12-child alphabet inside one rule", tl, tl), true);
     ctx.sample(sub, json!({"input": "@import url(x.css); %unused{p:q} a{b:c}"}));
+    // ---- @supports conditions: grouping survives serialization ---------------------------------------
+    {
+        let sub = "supports-conditions";
+        // condition trees of depth <= 2 over 3 leaves, `not`, `and`, `or`, explicit groups
+        let leaves: Vec<String> = vec!["(a: b)".into(), "(c: d)".into(), "(--e: f)".into(), "selector(g > h)".into()];
+        let mut d1: Vec<String> = leaves.clone();
+        for l in &leaves {
+            d1.push(format!("not {}", l));
+            d1.push(format!("({})", l));
+            for r in &leaves {
+                d1.push(format!("{} and {}", l, r));
+                d1.push(format!("{} or {}", l, r));
+            }
+        }
+        let mut conds: Vec<String> = d1.clone();
+        let small: Vec<String> = d1.iter().filter(|c| !c.contains("--e") && !c.contains("selector")).cloned().collect();
+        for a in &small {
+            conds.push(format!("not ({})", a));
+            for l in &leaves[..2] {
+                for op in ["and", "or"] {
+                    conds.push(format!("({}) {} {}", a, op, l));
+                    conds.push(format!("{} {} ({})", l, op, a));
+                }
+            }
+        }
+        for a in small.iter().take(12) {
+            for b2 in small.iter().take(12) {
+                conds.push(format!("({}) and ({})", a, b2));
+                conds.push(format!("({}) or ({})", a, b2));
+            }
+        }
+        conds.sort();
+        conds.dedup();
+        let n = conds.len() as u64 * 2;
+        par(
+            ctx,
+            sub,
+            n,
+            |i| json!({"condition": conds[(i / 2) as usize], "nested_in_rule": i % 2 == 1}),
+            |i, l| {
+                let c = &conds[(i / 2) as usize];
+                let src = if i % 2 == 0 { format!("@supports {} {{ a {{ b: c; }} }}", c) } else { format!("a {{ @supports {} {{ b: c; }} }}", c) };
+                check_one(ctx, sub, &format!("wf:supports:{}:{}", c, i % 2), &src, Syn::Scss, l);
+            },
+        );
+        ctx.bound(sub, "every @supports condition of depth <= 2 over 4 leaves (declaration, custom property, selector()), `not`, `and`, `or` and explicit groups on either side, at the top level and nested in a rule: the output is well-formed and a fixed point (a lost pair of parentheses does not re-parse)", true);
+        ctx.sample(sub, json!({"input": "@supports ((a: b) or (c: d)) and (e: f) { a { b: c; } }"}));
+    }
+    // ---- placeholders and other invisible selectors in every selector position ----------------------
+    {
+        let sub = "invisible-selectors";
+        let frames: &[&str] = &[
+            "\u{1}", "a \u{1}", "\u{1} a", "a, \u{1}", "\u{1}, a", "a:not(\u{1})", "a:is(\u{1})", "a:is(b, \u{1})", "a:matches(\u{1}, b)", "a:where(\u{1})", "a:nth-child(2n+1 of \u{1})", "a:nth-last-child(odd of b, \u{1})",
+            "a:not(b \u{1})", "a:is(:not(\u{1}))", "a:has(\u{1})", "a:host(\u{1})", "a::slotted(\u{1})", "a:nth-child(2n+1 of \u{1}), c", ":is(\u{1}) > d",
+        ];
+        let fills: &[&str] = &["%p", "%p.q", "b%p", "%p, %r", "b", ":not(%p)", ":is(%p)"];
+        let extends: &[&str] = &["", "e { @extend %p; }", "e { @extend %p; } f { @extend %r !optional; }"];
+        let n = (frames.len() * fills.len() * extends.len()) as u64;
+        par(
+            ctx,
+            sub,
+            n,
+            |i| json!({"index": i}),
+            |i, l| {
+                let i = i as usize;
+                let sel = frames[i % frames.len()].replace('\u{1}', fills[(i / frames.len()) % fills.len()]);
+                let ext = extends[i / frames.len() / fills.len()];
+                let src = format!("{} {{ x: y; }} z {{ k: l; }} {}", sel, ext);
+                check_one(ctx, sub, &format!("wf:invisible:{}:{}", sel, ext), &src, Syn::Scss, l);
+            },
+        );
+        ctx.bound(sub, "19 selector frames (bare, descendant, list member, inside :not / :is / :matches / :where / :has / :host / ::slotted / :nth-child(.. of ..), nested pseudos) x 7 fillers with and without placeholders x {never extended, extended, partly extended}: the output is well-formed CSS without placeholders and a fixed point", true);
+        ctx.sample(sub, json!({"input": "a:nth-child(2n+1 of %p) { x: y; }"}));
+    }
     ctx.assume("domain: outputs whose declaration values are CSS component values (outputs with bare parenthesised groups, maps or unevaluated operators are counted as excluded); the fixed point is compared on canonical trees (whitespace, number/colour spellings, blank lines erased; comments kept)");
 }
